@@ -235,15 +235,25 @@ def i_bit(op, a, b, ty):
 
 
 def i_shift(op, a, n, ty):
-    """a << n or a >> n with 0 <= n < bits already established"""
+    """a << n or a >> n with 0 <= n < bits already established (or masked).  Int-mode operands stay in the Int
+    theory: a << k is wrap(a * 2^k), a >> k is floor(a / 2^k) for signed and unsigned types alike"""
     bits, signed = INT_TYPES[ty]
     if is_conc_int(a) and is_conc_int(n):
         return wrap(a << n, ty) if op == 'Shl' else (a >> n)
-    was_bv = is_bv(a)
-    x, y = _bvpair(a, n if not is_bv(n) or n.size() == bits else (z3.ZeroExt(bits - n.size(), n) if n.size() < bits else z3.Extract(bits - 1, 0, n)), ty)
-    if op == 'Shl': r = x << y
-    else: r = (x >> y) if signed else z3.LShR(x, y)
-    return r if was_bv else z3.BV2Int(r, is_signed=signed)
+    if is_bv(a) or is_bv(n):
+        nn = n
+        if is_bv(nn) and nn.size() != bits:
+            nn = z3.ZeroExt(bits - nn.size(), nn) if nn.size() < bits else z3.Extract(bits - 1, 0, nn)
+        x, y = _bvpair(a, nn, ty)
+        if op == 'Shl': return x << y
+        return (x >> y) if signed else z3.LShR(x, y)
+    def one(k):
+        if op == 'Shl': return wrap(a * (1 << k), ty)
+        return a / (1 << k) if is_sym(a) else a >> k
+    if is_conc_int(n): return one(n)
+    r = one(bits - 1)
+    for k in range(bits - 2, -1, -1): r = ite(n == k, one(k), r)
+    return r
 
 
 def i_cast(x, src, dst):
